@@ -193,6 +193,7 @@ class _Overwritable(Contract):
 class Conj(_Overwritable):
     name, func = 'TT.conj', 'conj'
     props = ('C01', 'C06')
+    loop_ordinals = {0: 'i in range(self.order)'}
 
     def defaults(self):
         return {'overwrite': False}
@@ -257,6 +258,7 @@ def swapped(P, a, b, j):
 class Transpose(_Overwritable):
     name, func = 'TT.transpose', 'transpose'
     props = ('C01', 'C06')
+    loop_ordinals = {0: 'i in range(self.order)'}
 
     def instances(self):
         return [{'overwrite': ow, 'conjugate': cj, 'cores': cs} for ow in (False, True) for cj in (False, True) for cs in ('None', 'given')]
@@ -345,6 +347,7 @@ class Transpose(_Overwritable):
 class RankTranspose(_Overwritable):
     name, func = 'TT.rank_transpose', 'rank_transpose'
     props = ('C02', 'C06')
+    loop_ordinals = {0: 'i in range(len(tt_transpose.cores))'}
 
     def defaults(self):
         return {'overwrite': False}
@@ -469,6 +472,7 @@ class Add(Contract):
     name, func = 'TT.__add__', '__add__'
     props = ('C01', 'C06')
     list_kinds = {'cores': 'arr'}
+    loop_ordinals = {0: 'i in range(order)'}
 
     def instances(self):
         return [{'other': 'TT'}, {'other': 'not-TT'}]
@@ -898,3 +902,269 @@ class Eye(Contract):
         state.mark = z3.simplify(state.mark + d)
         cores = SList(state.alloc(), d, kind='arr', fn=lambda j: SArr([1, dims.fn(j), dims.fn(j), 1], False, base + j, True, ndim=4, own=True))
         return build_tt_from_cores(state, cores, d)
+
+
+# ----------------------------------------------------------------------------------------------------------------------
+# orthonormalisation (C03, C04, C06)
+
+def is_self_lists(t, me):
+    return z3.And(t.ref == me.ref, t.cores.ref == me.cores.ref, t.ranks.ref == me.ranks.ref, t.row_dims.ref == me.row_dims.ref,
+                  t.col_dims.ref == me.col_dims.ref)
+
+
+def cap_ok(rank, mr):
+    """rank <= max_rank (trivially true for inf)"""
+    if isinstance(mr, SMaxRank):
+        return z3.Or(mr.is_inf, zi(rank) <= mr.val)
+    if isinstance(mr, SInf):
+        return z3.BoolVal(True)
+    return zi(rank) <= zi(mr)
+
+
+class _Sweep(Contract):
+    props = ('C03', 'C04', 'C06')
+
+    def mk_common(self, ex, state):
+        m0 = ex.ctx.mark0
+        thr = SNum('threshold', nonneg=z3.BoolVal(True))
+        mr = SMaxRank('max_rank')
+        state.assume(z3.Or(mr.is_inf, mr.val >= 1))
+        return mk_tt(state, 'self', m0), thr, mr
+
+    def modifies(self, S):
+        me = S.o['self']
+        lo, hi = self.written_core_range(S)
+        d = zi(me.order)
+
+        def bufp(buf, state):
+            j = fresh('jw')
+            return z3.Exists([j], z3.And(lo <= j, j <= hi, j >= 0, j < d, buf == lst_get(me.cores, j).buf))
+        return [me.ref, me.cores.ref, me.ranks.ref], bufp
+
+
+@register
+class OrthoLeft(_Sweep):
+    name, func = 'TT.ortho_left', 'ortho_left'
+    loop_ordinals = {1: 'i in range(start_index, end_index + 1)'}
+
+    def instances(self):
+        return [{'end': 'None'}, {'end': 'given'}]
+
+    def defaults(self):
+        return {'start_index': 0, 'end_index': NONE, 'threshold': SNum('thr0', nonzero=z3.BoolVal(False), nonneg=z3.BoolVal(True)),
+                'max_rank': INF, 'progress': False, 'string': 'Left-orthonormalization'}
+
+    def setup(self, ex, state, inst):
+        me, thr, mr = self.mk_common(ex, state)
+        start = fresh('start_index')
+        end = NONE if inst['end'] == 'None' else fresh('end_index')
+        return {'self': me, 'start_index': start, 'end_index': end, 'threshold': thr, 'max_rank': mr, 'progress': False, 'string': 'x'}
+
+    def _end(self, S):
+        e = S.o['end_index'] if 'end_index' in S.o else NONE
+        return zi(S.o['self'].order) - 2 if isinstance(e, SNone) else zi(e)
+
+    def written_core_range(self, S):
+        return zi(S.o['start_index']), self._end(S)
+
+    def requires(self, S):
+        me = S.a['self']
+        yield 'start>=0', zi(S.a['start_index']) >= 0
+        # derived from the code: core end_index+1 is read and written, so end_index <= order-2
+        e = S.a['end_index']
+        if not isinstance(e, SNone):
+            yield 'end<=order-2', zi(e) <= zi(me.order) - 2
+
+    def ensures(self, S, res):
+        me0, me = S.o['self'], S.a['self']
+        d = zi(me0.order)
+        s, e = zi(S.o['start_index']), self._end(S)
+        mr = S.o['max_rank']
+        yield 'returns-self', isinstance(res, STT) and res is me
+        yield 'wf(self)', wf(me)
+        yield 'identity', is_self_lists(me, me0)
+        yield 'order-and-dims-unchanged', z3.And(zi(me.order) == d, same_ints(me.row_dims, me0.row_dims, d), same_ints(me.col_dims, me0.col_dims, d))
+        yield 'ranks-never-increase', FA(0, d + 1, lambda j: lst_get(me.ranks, j) <= lst_get(me0.ranks, j))
+        yield 'ranks-outside-sweep-unchanged', FA(0, d + 1, lambda j: z3.Implies(z3.Not(z3.And(s < j, j <= e + 1)), lst_get(me.ranks, j) == lst_get(me0.ranks, j)))
+        yield 'cores-outside-sweep-untouched', FA(0, d, lambda j: z3.Implies(z3.Or(j < s, j > e + 1), z3.And(
+            lst_get(me.cores, j).buf == lst_get(me0.cores, j).buf, *[f == g for f, g in zip(lst_get(me.cores, j).flags.values(), lst_get(me0.cores, j).flags.values())])))
+        yield 'processed-cores-left-orthonormal', FA(0, d, lambda j: z3.Implies(z3.And(s <= j, j <= e), lst_get(me.cores, j).flags['lorth']))
+        yield 'ranks<=max_rank', FA(0, d + 1, lambda j: z3.Implies(z3.And(s < j, j <= e + 1), cap_ok(lst_get(me.ranks, j), mr)))
+        yield 'positive-ranks', FA(0, d + 1, lambda j: lst_get(me.ranks, j) >= 1)
+        yield 'kind', FA(0, d, lambda j: z3.Implies(z3.Not(z3.And(s <= j, j <= e + 1)), lst_get(me.cores, j).cplx == lst_get(me0.cores, j).cplx))
+
+    def canary(self, S, res):
+        me0, me = S.o['self'], S.a['self']
+        return lst_get(me.ranks, 1) == lst_get(me0.ranks, 1) + 1
+
+    def invariant(self, key, inst):
+        if key != 'i in range(start_index, end_index + 1)':
+            return None
+
+        def inv(V, i, k):
+            me, me0 = V['self'], V.old('self')
+            d = zi(me0.order)
+            s = zi(V.old('start_index'))
+            mr = V.old('max_rank')
+            yield 'wf', wf(me)
+            yield 'identity', is_self_lists(me, me0)
+            yield 'dims', z3.And(zi(me.order) == d, same_ints(me.row_dims, me0.row_dims, d), same_ints(me.col_dims, me0.col_dims, d))
+            yield 'ranks-never-increase', FA(0, d + 1, lambda j: z3.And(lst_get(me.ranks, j) <= lst_get(me0.ranks, j), lst_get(me.ranks, j) >= 1))
+            yield 'ranks-outside', FA(0, d + 1, lambda j: z3.Implies(z3.Not(z3.And(s < j, j <= i)), lst_get(me.ranks, j) == lst_get(me0.ranks, j)))
+            yield 'cores-outside', FA(0, d, lambda j: z3.Implies(z3.Or(j < s, j > i), z3.And(
+                lst_get(me.cores, j).buf == lst_get(me0.cores, j).buf, lst_get(me.cores, j).cplx == lst_get(me0.cores, j).cplx,
+                *[f == g for f, g in zip(lst_get(me.cores, j).flags.values(), lst_get(me0.cores, j).flags.values())])))
+            cur, cur0 = lst_get(me.cores, i), lst_get(me0.cores, i)
+            yield 'current-core-fresh-or-entry', z3.Implies(z3.And(i >= 0, i < d), z3.If(
+                i <= s, z3.And(cur.buf == cur0.buf, cur.cplx == cur0.cplx, *[f == g for f, g in zip(cur.flags.values(), cur0.flags.values())]),
+                cur.buf >= V.mark0))
+            yield 'lorth', FA(0, d, lambda j: z3.Implies(z3.And(s <= j, j < i), lst_get(me.cores, j).flags['lorth']))
+            yield 'caps', FA(0, d + 1, lambda j: z3.Implies(z3.And(s < j, j <= i), cap_ok(lst_get(me.ranks, j), mr)))
+        return inv
+
+    def effect(self, ex, state, A, inst, line):
+        return sweep_effect(self, ex, state, A, line, left=True)
+
+
+def sweep_effect(contract, ex, state, A, line, left):
+    """in-place call: the lists of the receiver are replaced by unknowns constrained by the callee's ensures clauses
+    (assumed by Contract.apply right after this returns)"""
+    me = A['self']
+    for l, kind in ((me.cores, 'arr'), (me.ranks, 'int')):
+        l.items = None
+        l.fn = sym_elem_fn(kind, state)
+    state.ghost = getattr(state, 'ghost', {})
+    mr = A.get('max_rank', INF)
+    if left:
+        state.ghost['ortho_left.max_rank_is_inf'] = mr.is_inf if isinstance(mr, SMaxRank) else isinstance(mr, SInf)
+    # fresh buffers written by the callee lie in a reserved block
+    base, nm = state.alloc_block('sweep')
+    return me
+
+
+@register
+class OrthoRight(_Sweep):
+    name, func = 'TT.ortho_right', 'ortho_right'
+    loop_ordinals = {1: 'i in range(start_index, end_index - 1, -1)'}
+
+    def instances(self):
+        return [{'start': 'None'}, {'start': 'given'}]
+
+    def defaults(self):
+        return {'start_index': NONE, 'end_index': 1, 'threshold': SNum('thr0', nonzero=z3.BoolVal(False), nonneg=z3.BoolVal(True)), 'max_rank': INF}
+
+    def setup(self, ex, state, inst):
+        me, thr, mr = self.mk_common(ex, state)
+        start = NONE if inst['start'] == 'None' else fresh('start_index')
+        return {'self': me, 'start_index': start, 'end_index': fresh('end_index'), 'threshold': thr, 'max_rank': mr}
+
+    def _start(self, S):
+        s = S.o['start_index'] if 'start_index' in S.o else NONE
+        return zi(S.o['self'].order) - 1 if isinstance(s, SNone) else zi(s)
+
+    def written_core_range(self, S):
+        return zi(S.o['end_index']), self._start(S)
+
+    def requires(self, S):
+        me = S.a['self']
+        # derived from the code: core end_index-1 is read and written (end_index = 0 would wrap around to cores[-1])
+        yield 'end>=1', zi(S.a['end_index']) >= 1
+        s = S.a['start_index']
+        if not isinstance(s, SNone):
+            yield 'start<=order-1', zi(s) <= zi(me.order) - 1
+
+    def ensures(self, S, res):
+        me0, me = S.o['self'], S.a['self']
+        d = zi(me0.order)
+        e, s = zi(S.o['end_index']), self._start(S)
+        mr = S.o['max_rank']
+        yield 'returns-self', isinstance(res, STT) and res is me
+        yield 'wf(self)', wf(me)
+        yield 'identity', is_self_lists(me, me0)
+        yield 'order-and-dims-unchanged', z3.And(zi(me.order) == d, same_ints(me.row_dims, me0.row_dims, d), same_ints(me.col_dims, me0.col_dims, d))
+        yield 'ranks-never-increase', FA(0, d + 1, lambda j: lst_get(me.ranks, j) <= lst_get(me0.ranks, j))
+        yield 'ranks-outside-sweep-unchanged', FA(0, d + 1, lambda j: z3.Implies(z3.Not(z3.And(e <= j, j <= s)), lst_get(me.ranks, j) == lst_get(me0.ranks, j)))
+        yield 'cores-outside-sweep-untouched', FA(0, d, lambda j: z3.Implies(z3.Or(j < e - 1, j > s), z3.And(
+            lst_get(me.cores, j).buf == lst_get(me0.cores, j).buf, *[f == g for f, g in zip(lst_get(me.cores, j).flags.values(), lst_get(me0.cores, j).flags.values())])))
+        yield 'processed-cores-right-orthonormal', FA(0, d, lambda j: z3.Implies(z3.And(e <= j, j <= s), lst_get(me.cores, j).flags['rorth']))
+        yield 'ranks<=max_rank', FA(0, d + 1, lambda j: z3.Implies(z3.And(e <= j, j <= s), cap_ok(lst_get(me.ranks, j), mr)))
+        yield 'positive-ranks', FA(0, d + 1, lambda j: lst_get(me.ranks, j) >= 1)
+
+    def canary(self, S, res):
+        me0, me = S.o['self'], S.a['self']
+        return lst_get(me.ranks, 1) == lst_get(me0.ranks, 1) + 1
+
+    def invariant(self, key, inst):
+        if key != 'i in range(start_index, end_index - 1, -1)':
+            return None
+
+        def inv(V, i, k):
+            me, me0 = V['self'], V.old('self')
+            d = zi(me0.order)
+            st = V.old('start_index')
+            s = d - 1 if isinstance(st, SNone) else zi(st)
+            mr = V.old('max_rank')
+            yield 'wf', wf(me)
+            yield 'identity', is_self_lists(me, me0)
+            yield 'dims', z3.And(zi(me.order) == d, same_ints(me.row_dims, me0.row_dims, d), same_ints(me.col_dims, me0.col_dims, d))
+            yield 'ranks-never-increase', FA(0, d + 1, lambda j: z3.And(lst_get(me.ranks, j) <= lst_get(me0.ranks, j), lst_get(me.ranks, j) >= 1))
+            yield 'ranks-outside', FA(0, d + 1, lambda j: z3.Implies(z3.Not(z3.And(i < j, j <= s)), lst_get(me.ranks, j) == lst_get(me0.ranks, j)))
+            yield 'cores-outside', FA(0, d, lambda j: z3.Implies(z3.Or(j < i, j > s), z3.And(
+                lst_get(me.cores, j).buf == lst_get(me0.cores, j).buf, lst_get(me.cores, j).cplx == lst_get(me0.cores, j).cplx,
+                *[f == g for f, g in zip(lst_get(me.cores, j).flags.values(), lst_get(me0.cores, j).flags.values())])))
+            cur, cur0 = lst_get(me.cores, i), lst_get(me0.cores, i)
+            yield 'current-core-fresh-or-entry', z3.Implies(z3.And(i >= 0, i < d), z3.If(
+                i >= s, z3.And(cur.buf == cur0.buf, cur.cplx == cur0.cplx, *[f == g for f, g in zip(cur.flags.values(), cur0.flags.values())]),
+                cur.buf >= V.mark0))
+            yield 'rorth', FA(0, d, lambda j: z3.Implies(z3.And(i < j, j <= s), lst_get(me.cores, j).flags['rorth']))
+            yield 'caps', FA(0, d + 1, lambda j: z3.Implies(z3.And(i < j, j <= s), cap_ok(lst_get(me.ranks, j), mr)))
+        return inv
+
+    def effect(self, ex, state, A, inst, line):
+        return sweep_effect(self, ex, state, A, line, left=False)
+
+
+@register
+class Ortho(Contract):
+    name, func = 'TT.ortho', 'ortho'
+    props = ('C03', 'C04', 'C06')
+
+    def defaults(self):
+        return {'threshold': SNum('thr0', nonzero=z3.BoolVal(False), nonneg=z3.BoolVal(True)), 'max_rank': INF}
+
+    def setup(self, ex, state, inst):
+        m0 = ex.ctx.mark0
+        mr = SMaxRank('max_rank')
+        state.assume(z3.Or(mr.is_inf, mr.val >= 1))
+        return {'self': mk_tt(state, 'self', m0), 'threshold': SNum('threshold', nonneg=z3.BoolVal(True)), 'max_rank': mr}
+
+    def modifies(self, S):
+        me = S.o['self']
+        d = zi(me.order)
+
+        def bufp(buf, state):
+            j = fresh('jw')
+            return z3.Exists([j], z3.And(j >= 0, j < d, buf == lst_get(me.cores, j).buf))
+        return [me.ref, me.cores.ref, me.ranks.ref], bufp
+
+    def ensures(self, S, res):
+        me0, me = S.o['self'], S.a['self']
+        d = zi(me0.order)
+        mr = S.o['max_rank']
+        yield 'returns-self', isinstance(res, STT) and res is me
+        yield 'wf(self)', wf(me)
+        yield 'identity', is_self_lists(me, me0)
+        yield 'order-and-dims-unchanged', z3.And(zi(me.order) == d, same_ints(me.row_dims, me0.row_dims, d), same_ints(me.col_dims, me0.col_dims, d))
+        yield 'ranks-never-increase', FA(0, d + 1, lambda j: lst_get(me.ranks, j) <= lst_get(me0.ranks, j))
+        yield 'boundary-ranks-unchanged', z3.And(lst_get(me.ranks, 0) == lst_get(me0.ranks, 0), lst_get(me.ranks, d) == lst_get(me0.ranks, d))
+        yield 'cores-1..d-1-right-orthonormal', FA(1, d, lambda j: lst_get(me.cores, j).flags['rorth'])
+        yield 'interior-ranks<=max_rank', FA(1, d, lambda j: cap_ok(lst_get(me.ranks, j), mr))
+        ghost = getattr(S.state, 'ghost', {}).get('ortho_left.max_rank_is_inf')
+        yield 'gauge:left-sweep-not-rank-truncated', ghost is not None and ghost
+
+    def canary(self, S, res):
+        me0, me = S.o['self'], S.a['self']
+        return lst_get(me.ranks, 1) == lst_get(me0.ranks, 1) + 1
+
+    def effect(self, ex, state, A, inst, line):
+        return sweep_effect(self, ex, state, A, line, left=False)
